@@ -23,7 +23,7 @@ def nontrivial(case, impl, model, oracle):
 
 CHECK, MANIFEST = srvgen.make_check(
     "C03", "Props/C03.v", ["c03_silent_iff", "c03_header_and_question", "c03_question_is_spec",
-                         "c03_question_octets", "c03_writer_keeps_question", "c03_question_echo_octets", "c03_plain_response_decodes", "c03_answered_response_header"],
+                         "c03_question_octets", "c03_writer_keeps_question", "c03_question_echo_octets", "c03_plain_response_decodes", "c03_plain_response_end_to_end", "c03_answered_response_header"],
     srvgen.oracle_c03, gen, nontrivial, srvgen.std_classify,
     ("Coq theorems (no axioms): the model of handle_message sends nothing exactly for requests shorter than 12 octets, with QR "
      "set, or with QDCOUNT > 1; every response carries the request's ID and opcode and RD only for opcode QUERY, and its question "
